@@ -254,6 +254,35 @@ func dischargeAll(ctxs []*Ctx, workdir string, secs int, requireAll bool, par in
 		}(j)
 	}
 	wg.Wait()
+	// last pass, quick tier only: what is still undecided (at most three obligations) gets one more run, one at a
+	// time, with six times the per-obligation limit - a machine that is busy with other work must not turn a
+	// proof that needs ten seconds of solver time into an alarm
+	if requireAll {
+		return
+	}
+	var last []job
+	for _, j := range again {
+		if j.o.Result != "unsat" && j.o.Result != "sat" {
+			last = append(last, j)
+		}
+	}
+	if len(last) == 0 || len(last) > 3 {
+		return
+	}
+	for _, j := range last {
+		q := j.c.buildQuery(j.o, true)
+		r := solveQuery(workdir, j.o.Name+"-retry2", q, 6*secs, false)
+		if r.result == "unsat" || r.result == "sat" {
+			j.o.Result = r.result
+			j.o.Solver = r.solver + "(retry2)"
+			j.o.Secs += r.secs
+			if r.result == "sat" {
+				j.o.Model = r.output
+			} else {
+				j.o.Model = ""
+			}
+		}
+	}
 }
 
 func (o *Obligation) discharged() bool {
